@@ -1564,6 +1564,8 @@ class _Run:
             return C(recv[1].join(a[1] for a in args[0][1]))
         # aliases and keyword spellings of pandas methods
         name = {'isnull': 'isna', 'notnull': 'notna', 'tolist': 'to_list'}.get(name, name)
+        if name in ('round', 'abs') and not args and not kws and tag(recv) not in ('g', 'dict', 'list', 'tuple', 'c'):
+            return ('call', ('g', f'numpy.{name}'), (recv,), ())       # x.round() is np.round(x)
         if name in ('any', 'all') and not args and not kws and tag(recv) not in ('g', 'dict', 'list', 'tuple'):
             # mask.any() is np.any(mask) (one spelling for the rules): also for the values of the mask
             r = recv
